@@ -6,6 +6,7 @@
  * fuel-vm/src/interpreter/executors/main.rs  run_program (arms of the loop, trailer)
  * fuel-vm/src/memory_client.rs               MemoryClient::transact
  * fuel-vm/src/storage/memory.rs              MemoryStorage::{commit, revert}
+ * fuel-vm/src/interpreter/initialization.rs  init_inner (what a reused Interpreter resets before a transaction)
 """
 import re, sys
 from common import *
@@ -77,15 +78,42 @@ def main():
     ms = re.sub(r"\s+", "", strip_comments(read("fuel-vm/src/storage/memory.rs")))
     if "pubfncommit(&mutself){self.transacted=self.memory.clone();}" not in ms or "pubfnrevert(&mutself){self.memory=self.transacted.clone();}" not in ms:
         raise TranslateError("storage/memory.rs commit/revert changed")
-    L = ["/- GENERATED by tools/gen/outcome.py from fuel-vm/src/{interpreter/receipts.rs,state.rs,interpreter/executors/main.rs,memory_client.rs,storage/memory.rs} — do not edit -/",
+    # what a reused interpreter (MemoryClient / Transactor) resets before every transaction
+    ini = strip_comments(read("fuel-vm/src/interpreter/initialization.rs"))
+    mi = need(re.search(r"fn init_inner\s*\(", ini), "initialization.rs fn init_inner")
+    k = ini.index("{", ini.index("->", mi.end()))
+    depth, j = 0, k
+    while True:
+        depth += {"{": 1, "}": -1}.get(ini[j], 0)
+        j += 1
+        if depth == 0:
+            break
+    body = re.sub(r"\s+", "", ini[k:j])
+    for fn in ("init_script", "init_predicate"):
+        fm = need(re.search(r"pub fn %s\b.*?\n    \}" % fn, ini, re.S), "initialization.rs fn %s" % fn)
+        if "self.init_inner(" not in fm.group(0):
+            raise TranslateError("%s no longer goes through init_inner" % fn)
+    uses_f = re.findall(r"self\.frames\b[^;]*;", body)
+    uses_r = re.findall(r"self\.receipts\b[^;]*;", body)
+    if any(u != "self.frames.clear();" for u in uses_f) or any(u != "self.receipts.clear();" for u in uses_r):
+        raise TranslateError("init_inner touches frames / receipts in an unknown way: %r" % (uses_f + uses_r))
+    clears_frames, clears_receipts = bool(uses_f), bool(uses_r)
+    tr = re.sub(r"\s+", "", strip_comments(read("fuel-vm/src/interpreter/executors/main.rs")))
+    if "letstate_result=self.init_script(tx).and_then(|_|self.run());" not in tr:
+        raise TranslateError("executors/main.rs: transact no longer calls init_script before running")
+    L = ["/- GENERATED by tools/gen/outcome.py from fuel-vm/src/{interpreter/receipts.rs,state.rs,interpreter/executors/main.rs,memory_client.rs,storage/memory.rs,interpreter/initialization.rs} — do not edit -/",
          "namespace FuelVerif.Gen", "",
          "/-- `ReceiptsCtx::MAX_RECEIPTS` -/", "def receiptsMax : Nat := %d" % maxr,
          "/-- number of tail slots `push` reserves (conditions `len == MAX-1`, `len == MAX-2`) -/", "def reservedTailSlots : Nat := 2",
          "/-- receipt kinds that make `should_revert` true -/",
          "def shouldRevertKinds : List String := [%s]" % ", ".join('"%s"' % k for k in kinds[0]),
+         "/-- initialization.rs `init_inner` (run before every transaction, also on a reused `Interpreter`) contains",
+         "    `self.frames.clear();` resp. `self.receipts.clear();` -/",
+         "def initClearsFrames : Bool := %s" % str(clears_frames).lower(),
+         "def initClearsReceipts : Bool := %s" % str(clears_receipts).lower(),
          "", "end FuelVerif.Gen"]
     changed = write_if_changed("Outcome.lean", "\n".join(L) + "\n")
-    print("outcome: MAX_RECEIPTS=%d should_revert=%s%s" % (maxr, "|".join(kinds[0]), " (changed)" if changed else ""))
+    print("outcome: MAX_RECEIPTS=%d should_revert=%s init_inner clears frames=%s receipts=%s%s" % (maxr, "|".join(kinds[0]), clears_frames, clears_receipts, " (changed)" if changed else ""))
 
 
 if __name__ == "__main__":
